@@ -1,6 +1,7 @@
 #!/bin/bash
 # usage: tools/mutall.sh <patch-file>    applies the patch to /repo, runs every check, reverts; prints the checks that fire
 set -u
+exec 9>/tmp/verif-repo.lock; flock 9   # one user of /repo at a time
 PATCH=$1
 cd /repo || exit 2
 if ! git apply --check "$PATCH" 2>/dev/null; then echo "PATCH-DOES-NOT-APPLY $PATCH"; exit 3; fi
